@@ -103,7 +103,7 @@ def native_replay(unit, inputs, workdir, repo):
         return None, 'replay driver %s missing' % src
     exe = os.path.join(workdir, 'replay_' + unit.replay)
     if not os.path.exists(exe):
-        cmd = ['g++', '-std=c++11', '-O0', '-g', '-w', '-fsanitize=address,undefined', '-fno-sanitize-recover=undefined',
+        cmd = ['g++', '-std=c++11', '-O0', '-g', '-w', '-fsanitize=address,undefined', '-fno-sanitize-recover=all',
                '-fsanitize=float-cast-overflow',
                '-I', os.path.join(repo, 'src'), '-I', os.path.join(repo, '_build', 'src'),
                '-I', os.path.join(repo, 'src', 'xalanc', 'PlatformSupport'),
@@ -223,6 +223,7 @@ def cmd_check(args):
     ev_units = []
     n_obl = n_dis = 0
     n_obl_b = n_dis_b = 0
+    n_kf = 0
     samples = []
     fns = []
     assumptions = set()
@@ -256,11 +257,13 @@ def cmd_check(args):
                 ok = [o for o in real if o['status'] == 'SUCCESS']
                 bad = [o for o in real if o['status'] != 'SUCCESS']
                 reach_n = len([o for o in r.obligations if o['cls'] == 'reach'])
+                kf_bad = [o for o in bad if match_known(known, pid, u.name, jn, o)]
+                n_kf += len(kf_bad)
                 if j.cls == 'B':
-                    n_obl_b += len(real)
+                    n_obl_b += len(real) - len(kf_bad)
                     n_dis_b += len(ok)
                 else:
-                    n_obl += len(real)
+                    n_obl += len(real) - len(kf_bad)
                     n_dis += len(ok)
                 cmds.extend(r.cmds[-2:] if not cmds else [])
                 ev_units.append({'unit': u.name, 'job': jn, 'class': j.cls, 'mode': mode,
@@ -329,7 +332,7 @@ def cmd_check(args):
         if k['text'] in seen:
             continue
         seen.add(k['text'])
-        print('KNOWN-FINDING: property=%s %s' % (pid, k['text'][len('finding:'):].strip()))
+        print('KNOWN-FINDING: property=%s %s' % (pid, re.sub(r'^property=\S+\s*', '', k['text'][len('finding:'):].strip())))
     for l in viol_lines:
         print(l)
     for u_ in undecided:
@@ -352,7 +355,8 @@ def cmd_check(args):
                                  'note': 'class B jobs; NOT counted in obligations/discharged above'},
             'mechanisms_covered': covered,
             'mechanisms_not_covered': [m for m in mechs if m not in covered],
-            'known_findings_hit': [k['text'] for k, _, _, _ in known_hit],
+            'known_findings_hit': sorted(set(k['text'] for k, _, _, _ in known_hit)),
+            'known_finding_obligations_failed_and_excluded_from_counts': n_kf,
             'undecided': undecided,
             'solver_wall_s_sum': round(solver_s, 1),
             'explanation': 'component-level contract proof: every obligation generated by cbmc for the extracted real functions listed under functions_under_contract; the property as a whole-system statement is NOT proved (see mechanisms_not_covered)',
@@ -382,6 +386,7 @@ def cmd_selftest(args):
     units = R.load_units()
     sel = [units[n] for n in args.names] if args.names else list(units.values())
     rc = 0
+    allknown = load_known()
     for u in sel:
         for m in u.mutants:
             work = mkwork()
@@ -410,7 +415,8 @@ def cmd_selftest(args):
                 for jn, r in ent['jobs'].items():
                     if r.status == 'undecided':
                         und.append('%s: %s' % (jn, r.reason[:200]))
-                    failed += [(jn, o) for o in r.obligations if o['cls'] != 'reach' and o['status'] == 'FAILURE']
+                    failed += [(jn, o) for o in r.obligations if o['cls'] != 'reach' and o['status'] == 'FAILURE'
+                               and not any(match_known(allknown, k.get('property'), u.name, jn, o) for k in allknown)]
                 hit = [(jn, o) for jn, o in failed if m.expect is None or m.expect in o['desc'] or m.expect in o['name']]
                 if hit:
                     jn, o = hit[0]
@@ -456,6 +462,20 @@ def cmd_replay(args):
         shutil.rmtree(work, ignore_errors=True)
 
 
+def cmd_replay_input(args):
+    units = R.load_units()
+    u = units[args.unit]
+    work = mkwork()
+    try:
+        inputs = dict(a.split('=', 1) for a in args.kv)
+        rep, out = native_replay(u, inputs, work, R.REPO)
+        print('native replay on current tree: reproduced=%s' % rep)
+        print(out)
+        return 1 if rep else 0
+    finally:
+        shutil.rmtree(work, ignore_errors=True)
+
+
 def main(argv):
     ap = argparse.ArgumentParser(prog='xv')
     sub = ap.add_subparsers(dest='cmd')
@@ -474,6 +494,9 @@ def main(argv):
     a.add_argument('names', nargs='*')
     a = sub.add_parser('list')
     a = sub.add_parser('setup')
+    a = sub.add_parser('replay-input')
+    a.add_argument('unit')
+    a.add_argument('kv', nargs='*')
     a = sub.add_parser('replay')
     a.add_argument('path')
     args = ap.parse_args(argv)
@@ -487,6 +510,8 @@ def main(argv):
         return cmd_selftest(args)
     if args.cmd == 'setup':
         return cmd_setup(args)
+    if args.cmd == 'replay-input':
+        return cmd_replay_input(args)
     if args.cmd == 'replay':
         return cmd_replay(args)
     if args.cmd == 'list':
